@@ -16,6 +16,7 @@ import Retro.Props.C15.GridTorus
 import Retro.Props.C15.GridCone
 import Retro.Props.C15.GridCapsule
 import Retro.Props.C15.Closed
+import Retro.Props.C15.ClosedEuler
 import Mathlib.Tactic.Ring
 import Mathlib.Tactic.LinearCombination
 import Mathlib.Algebra.Field.Basic
